@@ -21,7 +21,7 @@ clockmod.time = lambda: REAL[0]      # scripted real-time source (the module doe
 HALF = Fraction(1, 2)
 OPS = [('start',), ('stop',), ('speed', 0), ('speed', HALF), ('speed', 1), ('speed', 2),
        ('set', 0), ('set', 1), ('set', -1), ('real', 1), ('real', 3)]
-DEPTH = {'quick': 7, 'thorough': 9}
+DEPTH = {'quick': 8, 'thorough': 10}
 
 
 class RefClock:
